@@ -34,6 +34,9 @@ type setterOp struct {
 	// SamePtr: the last two entries of the list (equal in content) are ONE
 	// component object listed twice
 	SamePtr bool `json:"same_object_twice,omitempty"`
+	// NilBytes: a zero-length byte-string argument is handed over as a nil
+	// slice (what a caller gets from an absent field) instead of an empty one
+	NilBytes bool `json:"nil_slice,omitempty"`
 }
 
 // libList: the list handed to the library for o.Comps.
@@ -166,7 +169,12 @@ func libraryValidationAccepts(p Prof, o setterOp) (accepts, ok bool) {
 
 // apply performs the call on the library object.
 func (o setterOp) apply(c psatoken.IClaims) (err error, applicable bool) {
-	cp := func() []byte { return append([]byte{}, o.Bytes...) }
+	cp := func() []byte {
+		if o.NilBytes && len(o.Bytes) == 0 {
+			return nil
+		}
+		return append([]byte{}, o.Bytes...)
+	}
 	switch o.Claim {
 	case CClientID:
 		return c.SetClientID(o.I32), true
@@ -687,6 +695,12 @@ func TestC11_Sweep(t *testing.T) {
 				}
 				for _, cl := range []Claim{CImplID, CBootSeed, CNonce} {
 					run(c11SweepIn{p, filled, setterOp{Claim: cl, Bytes: buf}}, fmt.Sprintf("%s%s/%d", pre, cl, n))
+					if n == 0 {
+						run(c11SweepIn{p, filled, setterOp{Claim: cl, NilBytes: true}}, fmt.Sprintf("%s%s/nil", pre, cl))
+					}
+				}
+				if n == 0 {
+					run(c11SweepIn{p, filled, setterOp{Claim: CInstID, NilBytes: true}}, fmt.Sprintf("%sinst/nil", pre))
 				}
 				for _, first := range []int{0, 1, 2, 255} {
 					b2 := append([]byte{}, buf...)
@@ -932,6 +946,12 @@ func drawSetterOp(t *rapid.T, p Prof) setterOp {
 			// the last component once more - the very same object
 			o.Comps = append(o.Comps, o.Comps[n-1].Clone())
 			o.SamePtr = true
+		}
+	}
+	switch o.Claim {
+	case CImplID, CBootSeed, CNonce, CInstID:
+		if len(o.Bytes) == 0 {
+			o.NilBytes = genBool.Draw(t, "nil-slice")
 		}
 	}
 	return o
